@@ -102,6 +102,8 @@ fn dense_c16(thorough: bool, _seed: u64) -> Vec<Case> {
         Source::RangeIter { start: 0 },
         Source::ClonedSlice,
         Source::ParCloned,
+        Source::NestedCloned,
+        Source::NestedCopied { start: 2 },
         Source::Coll { kind: Coll::VecDeque, by_ref: false },
         Source::Coll { kind: Coll::BTreeSet, by_ref: false },
         Source::Coll { kind: Coll::HashSet, by_ref: true },
